@@ -133,6 +133,8 @@ def generate(tier, seed):
     ndisk = 8 if tier == "quick" else 300
     for k in range(ndisk):
         cases.append({"kind": "disk", "k": k, "n": 15})
+    for k in range(6 if tier == "quick" else 120):
+        cases.append({"kind": "bigdisk", "k": k, "n": 24})
     return cases
 
 
@@ -195,7 +197,60 @@ def run_case(case, ctx):
                 res.sigs.add(short_hash("".join(seq), commented, repr(sep)))
     elif kind == "disk":
         run_disk(case, ctx, res)
+    elif kind == "bigdisk":
+        run_bigdisk(case, ctx, res)
     return res.out()
+
+
+def run_bigdisk(case, ctx, res):
+    """Files longer than the 4 KiB header window that are scanned in full (snippet marker): an ignore block of 1-3 KiB is slid
+    through the file so that it straddles every plausible read-buffer boundary; what it encloses must stay hidden."""
+    from ..monitors import run_cli
+
+    rng = rng_for(ctx.seed, "c12big", case["k"])
+    root = ctx.scratch / f"c12big-{case['k']}"
+    root.mkdir()
+    expected = {}
+    fill = "x = 'filler filler filler filler filler filler filler filler'\n"
+    try:
+        for j in range(case["n"]):
+            pre = rng.randint(0, 260)
+            inner = rng.randint(10, 60)
+            text = "# SPDX-SnippetBegin\n# SPDX-SnippetCopyrightText: 2001 Visible Top\n# SPDX-License-Identifier: LicenseRef-top\n"
+            text += fill * pre
+            text += "# " + START + "\n# SPDX-License-Identifier: LicenseRef-hidden-a\n# SPDX-FileCopyrightText: 2002 Hidden A\n"
+            text += fill * inner
+            text += "# SPDX-License-Identifier: LicenseRef-hidden-b\n# SPDX-FileCopyrightText: 2003 Hidden B\n# " + END + "\n"
+            text += fill * rng.randint(0, 40)
+            text += "# SPDX-License-Identifier: LicenseRef-bottom\n# SPDX-FileCopyrightText: 2004 Visible Bottom\n# SPDX-SnippetEnd\n"
+            (root / f"b{j}.py").write_text(text)
+            expected[f"b{j}.py"] = ({"LicenseRef-top", "LicenseRef-bottom"}, {"SPDX-SnippetCopyrightText: 2001 Visible Top", "SPDX-FileCopyrightText: 2004 Visible Bottom"},
+                                    (pre, inner))
+        r = run_cli(["--no-multiprocessing", "--root", str(root), "lint", "--json"], cwd=str(root))
+        try:
+            data = json.loads(r.stdout)
+        except ValueError:
+            res.violation("lint-json-unparseable", "lint --json gave no JSON", **r.brief())
+            return
+        by = {f["path"]: f for f in data["files"]}
+        for name, (wl, wc, shape) in expected.items():
+            res.n += 1
+            f = by.get(name)
+            if f is None:
+                res.violation("file-not-reported", f"{name} not in lint --json files")
+                continue
+            gl = {x["value"] for x in f["spdx_expressions"]}
+            gc = {x["value"] for x in f["copyrights"]}
+            if gl != wl or gc != wc:
+                res.violation("block-across-buffer-boundary", f"big file, {shape[0]} filler lines before and {shape[1]} inside the block: lint reads "
+                              f"{sorted(gl)} / {sorted(gc)}, outside the block are {sorted(wl)} / {sorted(wc)}", shape=shape)
+            else:
+                res.sigs.add(short_hash("big", shape))
+            res.cell("bigdisk")
+    finally:
+        import shutil
+
+        shutil.rmtree(root, ignore_errors=True)
 
 
 def run_disk(case, ctx, res):
